@@ -97,12 +97,13 @@ def get_rankings_from_file(file: str) -> List[List[Set[Element]]]:
 
     with open(file, "r", encoding='utf-8') as file_rankings:
         lines = file_rankings.read().replace("\\\n", "")
+    # an empty ranking is written "[]" by write_rankings: such a line must not be skipped as if it were blank
+    lines_rankings = [line for line in lines.split("\n")
+                      if (len(line) > 2 or line.strip() == "[]") and line[0] not in ignore_lines]
     try:
-        res = [parse_ranking_with_ties_of_int(line)
-               for line in lines.split("\n") if len(line) > 2 and line[0] not in ignore_lines]
+        res = [parse_ranking_with_ties_of_int(line) for line in lines_rankings]
     except ValueError:
-        res = [parse_ranking_with_ties_of_str(line)
-               for line in lines.split("\n") if len(line) > 2 and line[0] not in ignore_lines]
+        res = [parse_ranking_with_ties_of_str(line) for line in lines_rankings]
     return res
 
 
